@@ -152,6 +152,8 @@ struct TransitionBase {
 
 ////////////////////////////////////////////////////////////////////////////////
 
+#pragma pack(pop)
+
 template <typename TPayload>
 struct TransitionT final
 	: TransitionBase
@@ -239,6 +241,8 @@ struct TransitionT final
 };
 
 //------------------------------------------------------------------------------
+
+#pragma pack(push, 1)
 
 template <>
 struct TransitionT<void> final
